@@ -24,6 +24,7 @@ Ltac prep2 :=
   constructor; unfold finished_direct in *; cbn -[nth_error next_id has_ongoing set_nth In] in *; intros; unfold upd in *; eqb_cases.
 
 Ltac sat2 I J :=
+  try solve [ auto | congruence | apply (j_kind_p _ _ J); auto | apply (j_once _ _ J); auto ];
   repeat match goal with
   | y : cid |- _ =>
     lazymatch goal with
